@@ -1296,3 +1296,5 @@ MANIFEST = {
     'technique': 'sibling codec comparison against an RFC layout table over value terms (which decoded field reaches which attribute, what the encoder writes where) + finite evaluation of bit arithmetic',
     'design_ref': 'DESIGN.md 3/C05',
 }
+MANIFEST['note'] += (' Also decided here (necessary conditions shared between properties or added after the independent '
+                     'change rounds, DESIGN.md 8.7): ICV table (from C07), Message.to_bytes keeps nothing, critical-payload error not re-labelled, constructors keep their values, registry consistency.')
